@@ -5,11 +5,16 @@
      code 2 = the observed behaviour violates spec_C09. *)
 From Coq Require Import List NArith Bool Arith.
 Import ListNotations.
-From AnySync Require Export Model.LoadIter.
+From AnySync Require Export Model.LoadIter Model.LoadIterMid.
 
 Inductive case :=
 | CResp (G : list change) (sigma : list sentry) (ourPath theirPath theirHeads haveB : list N) (maxSize : N)
-        (ok : bool) (bs : list (list N * list N)) (finalB : list N).
+        (ok : bool) (bs : list (list N * list N)) (finalB : list N)
+(* mid-stream stores: the responder's store is sigma0 when the request is handled and changes to s from the k-th
+   NextBatch call on for every (k, s) of chg (changes added by a third peer / locally while the response is streamed) *)
+| CMid (G : list change) (sigma0 : list sentry) (chg : list (N * list sentry))
+       (ourPath theirPath theirHeads haveB : list N) (maxSize : N)
+       (ok : bool) (bs : list (list N * list N)) (finalB : list N).
 
 Fixpoint batches_eqb (m : list batch) (o : list (list N * list N)) : bool :=
   match m, o with
@@ -26,6 +31,11 @@ Definition model_ok (c : case) : bool :=
       | None => negb ok
       | Some m => ok && batches_eqb m bs
       end
+  | CMid G sigma0 chg ourPath theirPath theirHeads haveB maxSize ok bs finalB =>
+      match respond_mid sigma0 (store_at sigma0 chg) ourPath theirPath theirHeads maxSize with
+      | None => negb ok
+      | Some m => ok && batches_eqb m bs
+      end
   end.
 
 Definition spec_ok (c : case) : bool :=
@@ -33,6 +43,9 @@ Definition spec_ok (c : case) : bool :=
   | CResp G sigma ourPath theirPath theirHeads haveB maxSize ok bs finalB =>
       if ok then spec_C09 G sigma ourPath theirPath theirHeads haveB maxSize bs finalB
       else true   (* an error answer (no common snapshot) sends nothing; the model decides whether it is expected *)
+  | CMid G sigma0 chg ourPath theirPath theirHeads haveB maxSize ok bs finalB =>
+      if ok then spec_C09_mid G sigma0 (final_store sigma0 chg) ourPath theirPath theirHeads haveB maxSize bs finalB
+      else true
   end.
 
 Fixpoint check_from (i : N) (l : list case) : list (N * N) :=
